@@ -191,7 +191,26 @@ func (w statusWriter) Update(ctx context.Context, obj client.Object, opts ...cli
 }
 
 func (w statusWriter) Patch(ctx context.Context, obj client.Object, patch client.Patch, opts ...client.SubResourcePatchOption) error {
-	return fmt.Errorf("simapi: status patch not supported")
+	kind, err := kindOf(obj)
+	if err != nil {
+		return err
+	}
+	data, err := patch.Data(obj)
+	if err != nil {
+		return err
+	}
+	if patch.Type() != "application/merge-patch+json" {
+		return fmt.Errorf("simapi: patch type %s not supported", patch.Type())
+	}
+	call := &Call{Verb: "patchstatus", Kind: kind, NS: obj.GetNamespace(), Name: obj.GetName(), Patch: data}
+	if !kinds[kind].namespaced {
+		call.NS = ""
+	}
+	if err := w.c.do(call); err != nil {
+		return err
+	}
+	resetObj(obj)
+	return json.Unmarshal(call.Out, obj)
 }
 
 func (c *ctrlClient) Scheme() *runtime.Scheme         { return theScheme }
